@@ -129,5 +129,20 @@ func main() {
 		}
 		cases = append(cases, c)
 	}
+	// A discarded case is a case nobody looked at.  None is expected on a healthy
+	// tree; more than a handful means the scenarios are no longer reached, which
+	// must not pass for "nothing found".
+	if limit := 3 + len(inputs)/200; discarded > limit {
+		fmt.Fprintf(os.Stderr, "C08 harness: %d of %d cases could not be run (limit %d); first reasons:\n", discarded, len(inputs), limit)
+		n := 0
+		for _, c := range results {
+			if c.Discard && n < 10 {
+				b, _ := json.Marshal(c.Obs)
+				fmt.Fprintln(os.Stderr, "  ", c.Class, string(b))
+				n++
+			}
+		}
+		os.Exit(3)
+	}
 	lib.WriteCases(harness, *out, cases, discarded, *seed, *tier)
 }
